@@ -180,6 +180,10 @@ def gen_grid_triangle(rng, k, for_matrix):
     rp = rng.choice([1, 3, 6, 12])
     re_ = rng.choice([1, 3, 6, 12])
     s0 = rng.randint(30 * 12, 55 * 12)
+    if for_matrix and k % 3 == 1:
+        # before 1970 and straddling 1969/1970 (negative month ids; dates built by hand with ms/me, never with
+        # the library's add_months, which is wrong before 1970: finding F10 of C12)
+        s0 = rng.choice([rng.randint(-60 * 12, -13), rng.randint(-30, -1), -rp * rng.randint(1, 3) + rng.choice([0, 1, -1])])
     s0 -= s0 % rp if rng.random() < 0.7 else 0
     npd = rng.randint(1, 4)
     starts, cur = [], s0
@@ -730,6 +734,11 @@ def run_matrix_case(ctx, t, info):
             problems.append(f"Matrix round trip differs ({len(got)} cells back, {len(w)} expected): {diff}")
         elif len(back.slices) != len(t.slices):
             problems.append(f"Matrix round trip: {len(back.slices)} slices back, {len(t.slices)} before")
+    if in_hyps and not info["inc"]:
+        rp_ = rich_matrix_problems(t)
+        if rp_:
+            problems.append(rp_[0])
+    info["pre1970"] = any(c.period_start.year < 1970 for c in t)
     rec = f"(mkM {ct.ccells(t.cells)} {cstrs(fields)}\n  {mtxt}\n  {btxt} {'true' if in_hyps else 'false'})"
     return rec, problems
 
@@ -802,6 +811,40 @@ def matrix_roundtrip_problems(t):
     if got != w:
         diff = [x for x in w if x not in got][:1] + [x for x in got if x not in w][:1]
         return [f"Matrix round trip differs ({len(got)} cells back, {len(w)} expected); first difference {diff}"]
+    return []
+
+
+def rich_matrix_problems(t):
+    """triangle_to_rich_matrix / rich_matrix_to_triangle on a cumulative triangle inside the Matrix hypotheses"""
+    from bermuda.io import rich_matrix as rmx
+
+    try:
+        with warnings.catch_warnings():
+            warnings.simplefilter("ignore")
+            back = rmx.rich_matrix_to_triangle(rmx.triangle_to_rich_matrix(t))
+    except Exception as ex:  # noqa: BLE001
+        return [f"rich Matrix round trip raised {type(ex).__name__}: {str(ex)[:100]}"]
+    got, w = canon_tri(back), canon_tri(t)
+    if got != w:
+        diff = [x for x in w if x not in got][:1] + [x for x in got if x not in w][:1]
+        return [f"rich Matrix round trip differs ({len(got)} cells back, {len(w)} expected); first difference {diff}"]
+    return []
+
+
+def array_explicit_problems(t, res):
+    _, _, _, arr, _ = B()
+    f = t.fields[0]
+    try:
+        with warnings.catch_warnings():
+            warnings.simplefilter("ignore")
+            back = arr.array_data_frame_to_triangle(arr.triangle_to_array_data_frame(t, f), f, period_resolution=res,
+                                                    metadata=t.cells[0].metadata)
+    except Exception as ex:  # noqa: BLE001
+        return [f"array frame (period_resolution={res}) raised {type(ex).__name__}: {str(ex)[:100]}"]
+    got, w = canon_tri(back), canon_tri(t)
+    if got != w:
+        diff = [x for x in w if x not in got][:1] + [x for x in got if x not in w][:1]
+        return [f"array frame (period_resolution={res}): round trip differs; first difference {diff}"]
     return []
 
 
@@ -879,6 +922,15 @@ def directed_probes(ctx, tmp):
             probes.append((f"Z/{nm}/{vals_name}", t, "csv", zcls))
         t = Triangle([mkc(*P, D(2020, 3, 31), {"paid_loss": 1.0 + i}, mk_m(v), prev=D(2019, 12, 31)) for i, v in enumerate((0.0, 2.5))])
         probes.append((f"Z/{nm}/incremental", t, "csv", zcls))
+    def grid(s0, rp, re_, npd=3, nl=3):
+        return Triangle([mkc(ms(s0 + p * rp), me(s0 + p * rp + rp - 1), me(s0 + p * rp + rp - 1 + j * re_), {"paid_loss": 1.0 + p + j})
+                         for p in range(npd) for j in range(nl)])
+    for nm, (s0, rp, re_) in [("monthly-1963", (-84, 1, 1)), ("quarterly-1965", (-60, 3, 3)), ("quarterly-1969", (-7, 3, 3)),
+                              ("annual-straddle", (-14, 12, 12)), ("monthly-straddle", (-3, 1, 3))]:
+        probes.append((f"PRE1970/matrix/{nm}", grid(s0, rp, re_), "matrix", {"kind": "matrix_pre1970_month_ids"}))
+        probes.append((f"PRE1970/rich/{nm}", grid(s0, rp, re_), "rich", {"kind": "matrix_pre1970_month_ids"}))
+    probes.append(("PRE1970/array/quarterly-1965", grid(-60, 3, 3), "array-explicit:3", {"kind": "array_pre1970_add_months_f10"}))
+    probes.append(("PRE1970/array/monthly-1963", grid(-84, 1, 1), "array-explicit:1", {"kind": "array_pre1970_add_months_f10"}))
     n = 0
     for name, t, how, cls in probes:
         n += 1
@@ -886,9 +938,20 @@ def directed_probes(ctx, tmp):
             probs = csv_roundtrip_problems(t, tmp, "probe_" + re.sub(r"\W", "_", name))
         elif how == "array-default":
             probs = array_default_problems(t)
+        elif how == "rich":
+            probs = rich_matrix_problems(t)
+        elif how.startswith("array-explicit:"):
+            probs = array_explicit_problems(t, int(how.split(":")[1]))
         else:
             probs = matrix_roundtrip_problems(t)
         ctx.hist("probe:" + name.split("/")[0])
+        listed = any(k_.get("property") == ctx.pid and k_.get("class") == cls for k_ in ctx.known)
+        if probs and cls == {"kind": "array_pre1970_add_months_f10"} and not listed:
+            # F10 (C12: add_months before 1970) surfacing inside array.py; reported to the lead, becomes a
+            # KNOWN-FINDING / VIOLATION as soon as known_findings.json carries an entry of this class
+            ctx.notes.append(f"UNLISTED FINDING {cls}: [{name}] {probs[0]}")
+            ctx.log(f"UNLISTED FINDING (not in known_findings.json) {cls}: [{name}] {probs[0][:160]}")
+            continue
         if probs:
             ctx.violation("impl-violation", f"[{name}] {probs[0]}",
                           {"kind": how, "probe": name, "triangle": tri_to_data(t), "problems": probs},
@@ -1049,6 +1112,7 @@ def run(ctx):
         recsM.append(rec)
         metaM.append((t, info))
         ctx.hist(f"matrix:{info['layout']}/{'inc' if info['inc'] else 'cum'}/rp={info['rp']}/re={info['re']}")
+        ctx.hist("matrix:pre-1970 periods" if info.get("pre1970") else "matrix:periods from 1970")
         if len(t) >= 2:
             ctx.nontriv(("M", tuple(canon_tri(t))))
         if problems:
@@ -1137,6 +1201,10 @@ def replay(ctx, data):
         probs = matrix_roundtrip_problems(t)
     elif kind == "array-default":
         probs = array_default_problems(t)
+    elif kind == "rich":
+        probs = rich_matrix_problems(t)
+    elif kind.startswith("array-explicit:"):
+        probs = array_explicit_problems(t, int(kind.split(":")[1]))
     elif kind == "array":
         _, _, _, arr, _ = B()
         f = t.fields[0]
